@@ -13,6 +13,9 @@
 //        s 16 MB file asked for (Http::serveFile), 17 bytes read through a 4 kB receive buffer, close;  S the file downloaded completely;
 //        A the file asked for, 2 MB of it read, then RST while the transfer is in full swing;
 //        t answer sent after ResponseWriter::timeoutAfter(300 ms) was armed (the timer is disarmed by the answer)
+//        P the writer moved to another thread, which arms the response time-out there (400 ms) and answers at once
+//        G silent for 550 ms, then a request answered with a flushed stream; E (350 ms later) a request whose handler keeps the worker
+//          busy for 700 ms: the idle scan's 408 for G is queued when G's request is handled, and completes inside its handler's flush
 //        M the same with the writer moved between arming and answering; O armed (100 ms), moved to a thread that never answers: the
 //          time-out fires (408) while the moved writer lives on; Y armed (100 ms), answered at once, the writer kept 350 ms
 //        L request answered by a thread of the handler's own 150 ms later; the client closes at once, so the answer comes when
@@ -207,6 +210,38 @@ public:
                 try
                 {
                     w->send(Http::Code::Ok, "late answer");
+                }
+                catch (...)
+                {
+                }
+                --g_late_running;
+            }).detach();
+        }
+        else if (req.resource() == "/stream")
+        {
+            // a streamed answer with flushes: each flush drains everything that is queued for writing on this worker
+            auto st = response.stream(Http::Code::Ok);
+            st << "s:";
+            st.flush();
+            st << "tail";
+            st.flush();
+            st.ends();
+        }
+        else if (req.resource() == "/nap700")
+        {
+            std::this_thread::sleep_for(std::chrono::milliseconds(700));
+            response.send(Http::Code::Ok, "hello /nap700");
+        }
+        else if (req.resource() == "/armelse")
+        {
+            // the writer is moved to another thread, which arms the response time-out there and answers
+            auto w = std::make_shared<Http::ResponseWriter>(std::move(response));
+            ++g_late_running;
+            std::thread([w] {
+                try
+                {
+                    w->timeoutAfter(std::chrono::milliseconds(400));
+                    w->send(Http::Code::Ok, "hello /armelse");
                 }
                 catch (...)
                 {
@@ -493,6 +528,25 @@ void http_client(char b, uint16_t port)
         read_response(fd);
         ::close(fd);
         break;
+    case 'G':
+        // silent for 550 ms (the idle scan, 600 ms, is due by the time the worker comes back from E's nap), then a request whose
+        // handler flushes: the 408 the scan has queued for this peer completes inside that flush and its continuation removes the peer
+        std::this_thread::sleep_for(std::chrono::milliseconds(550));
+        pv::send_all(fd, "GET /stream HTTP/1.1\r\nHost: a\r\nConnection: Keep-Alive\r\n\r\n");
+        read_to_eof(fd, 1500);
+        ::close(fd);
+        break;
+    case 'E':
+        std::this_thread::sleep_for(std::chrono::milliseconds(350));
+        pv::send_all(fd, "GET /nap700 HTTP/1.1\r\nHost: a\r\n\r\n");
+        read_response(fd);
+        ::close(fd);
+        break;
+    case 'P':
+        pv::send_all(fd, "GET /armelse HTTP/1.1\r\nHost: a\r\n\r\n");
+        read_response(fd);
+        ::close(fd);
+        break;
     case 'M':
     case 'O':
     case 'Y':
@@ -552,7 +606,7 @@ std::string drive(const char* tag, uint16_t port, int rounds, const std::string&
         // (read before the fresh connections take the same descriptor numbers and release them again)
         if (g_log.count('D') >= conns)
         {
-            std::this_thread::sleep_for(std::chrono::milliseconds(behaviours.find_first_of("tMOY") != std::string::npos ? 450 : 10));
+            std::this_thread::sleep_for(std::chrono::milliseconds(behaviours.find_first_of("tMOYP") != std::string::npos ? 450 : 10));
             tables_max = std::max(tables_max, table_entries());
         }
         size_t n = std::min<size_t>(ts.size(), 8);
@@ -562,7 +616,7 @@ std::string drive(const char* tag, uint16_t port, int rounds, const std::string&
     for (int k = 0; k < 800 && g_log.count('D') < conns; ++k)
         std::this_thread::sleep_for(std::chrono::milliseconds(5));
     // disarmed response timers (300 ms) have fired by then
-    std::this_thread::sleep_for(std::chrono::milliseconds(behaviours.find_first_of("tMOY") != std::string::npos ? 450 : 80));
+    std::this_thread::sleep_for(std::chrono::milliseconds(behaviours.find_first_of("tMOYP") != std::string::npos ? 450 : 80));
     for (int k = 0; k < 400 && g_late_running.load() > 0; ++k)
         std::this_thread::sleep_for(std::chrono::milliseconds(5));
     int end = count_fds();
